@@ -19,7 +19,8 @@ VARIANTS = ["asan"]
 RULE = ("histories of 1-4 runs on one instance; per run a seeded assignment of the 9 global switches, per-user-number selected-output "
         "file/string switches, current user number, custom/default file names, entry point and one of the workload inputs (output, "
         "log, warnings, errors, DUMP with/without -append/-file, several SELECTED_OUTPUT blocks); every 8th plan carries one sink fault. "
-        "Non-trivial = at least one stream had both sinks on and received >= 1 kB; distinct = distinct (switch vectors, inputs, name kinds).")
+        "Non-trivial = at least one stream had both sinks on and received >= 1 kB; distinct = distinct (switch vectors, inputs, name kinds). "
+        "The thorough tier starts with an exhaustive part: all 2^9 global switch vectors for each of eight inputs.")
 COMPONENTS = {"real": "whole IPhreeqc library from /repo's working tree (ASan+UBSan)",
               "stub": "libc file calls of sandbox files (fopen64/read/write/writev/fclose interposed: capture + injected failures), clock() frozen"}
 ASSUMPTIONS = ["descriptor-level capture equals file content (regular files in a private sandbox directory)",
@@ -63,7 +64,20 @@ def input_text(key):
     return t if t is not None else example_text(key)
 
 
+ENUM_IN = ["log", "sel12", "dump", "dumpapp", "warn", "err", "multi", "ex2"]
+
+
 def generate(rng, tier, index):
+    if tier == "thorough" and index < 512 * len(ENUM_IN):
+        # exhaustive part: every one of the 2^9 global switch vectors, for eight inputs, with both selected-output sinks of two blocks on
+        bits = index % 512
+        sw = {k: (bits >> i) & 1 for i, k in enumerate(GLOBAL_SW)}
+        return {"prop": PROP, "runs": [{"sw": sw, "names": {}, "sel": [[1, 1, 1, None], [2, 1, 1, None]], "cur": 1, "preload": None, "input": ENUM_IN[index // 512], "entry": "string"}],
+                "fault": None, "enumerated": True}
+    return generate_random(rng, tier, index)
+
+
+def generate_random(rng, tier, index):
     nruns = rng.range(1, 4)
     runs = []
     used_names = set()
@@ -424,6 +438,8 @@ def check_plan(ctx, plan):
     if nontrivial:
         rep.distinct.append(hashlib.sha1(("||".join(dkey) + str(plan.get("fault"))).encode()).hexdigest()[:12])
     rep.count("runs", len(plan["runs"]))
+    if plan.get("enumerated"):
+        rep.count("enumerated_switch_vectors")
     rep.sample = {"runs": [{k: r.get(k) for k in ("input", "entry", "sw", "sel", "cur", "preload")} for r in plan["runs"]], "fault": plan.get("fault")}
     rep.count("runs_after_failed_load", sum(1 for r in plan["runs"] if r.get("preload") in ("missing", "bad")))
     return rep
